@@ -74,6 +74,19 @@ def catalogue():
     add("table-form-with-parameters", "pair", sub(P, "Mg-O : >=0 tab1", "Mg-O : >=0 tab1 1.0 2.0"), "cfg", "parameters given to a table form")
     add("tab-dlpoly-four-rows", "pair", sub(sub(P, "target : LAMMPS", "target : DL_POLY"), "nr : 8", "nr : 4"), "cfg", "DL_POLY table with four rows (grid increment cutoff/(rows-4) undefined)")
     add("tab-dlpoly-four-rows-by-step", "pair", sub(sub(P, "target : LAMMPS", "target : DL_POLY"), "cutoff : 4.0\nnr : 8", "dr : 0.005\ncutoff : 0.015"), "cfg", "DL_POLY table with four rows given as dr and cutoff")
+    # ---- found through round-5 side remarks
+    F2 = "[Potential-Form]\nmyform(r,a) = a*exp(-r)\ninner(r,b) = b*r\nouter(r,c) = %s\n"
+    for tag, call, req in (("valid", "inner(r, c)", "ok"), ("too-few", "inner(r)", "cfg"), ("too-many", "inner(r, c, 2.0)", "cfg")):
+        add("custom-form-calls-custom-form-" + tag, "pair", sub(sub(P, "[Potential-Form]\nmyform(r,a) = a*exp(-r)\n", F2 % call), "Al-O : myform 2.5", "Al-O : outer 2.5"), req,
+            "a custom form calling another custom form with %s arguments" % {"valid": "the right number of", "too-few": "too few", "too-many": "too many"}[tag])
+    add("custom-form-signature-trailing-text", "pair", sub(P, "myform(r,a) = a*exp(-r)", "myform(r,a)x = a*exp(-r)"), "cfg", "text after the closing bracket of a [Potential-Form] signature")
+    add("custom-form-signature-two-brackets", "pair", sub(P, "myform(r,a) = a*exp(-r)", "myform(r,a) junk(b)c = a*exp(-r)"), "cfg", "a second bracketed list in a [Potential-Form] signature")
+    add("variables-unresolved-placeholder", "pair", "[Variables]\nunused : ${no_such_variable}\n\n" + P, "cfg", "unresolvable ${...} in a [Variables] entry")
+    add("variables-braceless-placeholder", "pair", "[Variables]\nunused : $rho\n\n" + P, "cfg", "'$name' without braces in a [Variables] entry")
+    add("species-mass-nan", "eam", sub(E, "Cu.lattice_constant : 3.61", "Cu.lattice_constant : 3.61\nCu.atomic_mass : nan"), "cfg", "atomic_mass nan in [Species]")
+    add("species-mass-inf", "eam", sub(E, "Cu.lattice_constant : 3.61", "Cu.lattice_constant : 3.61\nCu.atomic_mass : 1e999"), "cfg", "atomic_mass 1e999 (infinite) in [Species]")
+    add("species-lattice-constant-nan", "eam", sub(E, "Cu.lattice_constant : 3.61", "Cu.lattice_constant : nan"), "cfg", "lattice_constant nan in [Species]")
+    add("form-parameter-infinite", "pair", sub(P, "Si-O : as.buck 1000.0 0.3 32.0", "Si-O : as.buck 1e400 0.3 32.0"), "cfg", "a potential-form parameter that is not a finite number (1e400)")
     # ---- file level
     add("file-not-ini", "pair", "this is not an ini file\njust text\n", "cfg", "text that is not an INI file")
     add("file-line-without-delimiter", "pair", sub(P, "Si-O : as.buck 1000.0 0.3 32.0", "Si-O as.buck 1000.0 0.3 32.0"), "cfg", "line without ':' or '='")
